@@ -23,6 +23,14 @@ var vC15Blocks = []string{
 func vEntities(d []string) []string {
 	var out []string
 	for _, l := range d {
+		if strings.HasPrefix(l, "tag ") {
+			// the interactions inside a tag follow the text order: compared as a set
+			if i, j := strings.LastIndex(l, "["), strings.LastIndex(l, "]"); i >= 0 && j > i {
+				ids := strings.Split(l[i+1:j], ",")
+				sort.Strings(ids)
+				l = l[:i+1] + strings.Join(ids, ",") + l[j:]
+			}
+		}
 		if strings.HasPrefix(l, "  ") && len(out) > 0 {
 			out[len(out)-1] += "\n" + l
 		} else {
@@ -41,6 +49,42 @@ func vEntities(d []string) []string {
 func HPermute() {
 	n := vParam("n", 6)
 	blocks := append([]string(nil), vC15Blocks[:n]...)
+	switch vParam("family", 0) {
+	case 1:
+		// tags: a declared tag used before / after its TAG block, a path tag that exists only
+		// from the first method of that path on, optionally named by a Tags directive
+		blocks = []string{
+			"GET /cats/b\n  200 any\n",
+			"GET /dogs\n  Tags @t\n  200 any\n",
+			"TAG @t // declared\n  Description\n    about t\n",
+			"POST /cats\n  Tags @t\n  201 any\n",
+			"DELETE /birds/{id}\n  204 empty\n",
+		}
+		if vBool("namesPathTag") {
+			blocks[1] = "GET /dogs\n  Tags @cats\n  200 any\n"
+		}
+		if vBool("declaredLikePath") {
+			blocks[4] = "TAG @cats // cats\n"
+		}
+		n = len(blocks)
+	case 2:
+		// a regex type referred to by two types and a body: the EXAMPLES are compared too (vEmit)
+		blocks = []string{
+			"TYPE @id regex\n/[a-z]{3}/\n",
+			"TYPE @person\n{\n  \"id\": @id\n}\n",
+			"TYPE @pet\n{\n  \"id\": @id\n}\n",
+			"GET /p\n  200 @person\n",
+			"GET /q\n  200\n  {\"tag\": @id}\n",
+		}
+		n = len(blocks)
+	}
+	if vParam("rpc", 0) == 1 {
+		// a JSON-RPC method whose Params inherit from a type (allOf) and whose Result is an array of a type
+		if n > 4 {
+			blocks[4] = strings.Replace(blocks[4], "    Tags @t\n", "", 1) // the TAG block is gone
+		}
+		blocks[0] = "URL /rpc\n  Protocol json-rpc-2.0\n  Method m // call\n    Params\n    { // {allOf: \"@b\"}\n      \"z\": 1\n    }\n    Result\n    [@a]\n"
+	}
 	if vParam("edges", 0) == 1 {
 		// which block refers to which is symbolic too: @a -> @b, @b -> @a (both: a cycle),
 		// @a -> ENUM @e, the stand-alone method -> @b / @a
@@ -84,10 +128,24 @@ func HPermute() {
 		docB += blocks[i]
 	}
 	cA, jeA := vBuildText(docA)
-	vAssert(jeA == nil, "c15-fixture-rejected")
 	cB, jeB := vBuildText(docB)
+	if vParam("family", 0) == 1 {
+		// the written order may itself be a rejected document: then every order is
+		vAssert((jeA == nil) == (jeB == nil), "c15-verdict-depends-on-the-order-of-blocks")
+		if jeA != nil {
+			vAssert(vMsgClass(jeA) == vMsgClass(jeB), "c15-error-class-depends-on-the-order-of-blocks")
+			vReach("permuted")
+			vObserve("rejected", jeA.Msg)
+			return
+		}
+	}
+	vAssert(jeA == nil, "c15-fixture-rejected")
 	vAssert(jeB == nil, "c15-permuted-document-rejected")
-	eA, eB := vEntities(vDigestDeep(cA)), vEntities(vDigestDeep(cB))
+	dA, dB := vDigestDeep(cA), vDigestDeep(cB)
+	if vParam("family", 0) == 2 {
+		dA, dB = vEmit(cA), vEmit(cB)
+	}
+	eA, eB := vEntities(dA), vEntities(dB)
 	sA, sB := append([]string(nil), eA...), append([]string(nil), eB...)
 	sort.Strings(sA)
 	sort.Strings(sB)
@@ -111,7 +169,7 @@ func HPermute() {
 		return out
 	}
 	types := section("type ", eB)
-	if len(types) == 2 {
+	if len(types) == 2 && vParam("family", 0) == 0 {
 		vAssert((types[0] == "@a") == (pos[1] < pos[2]), "c15-types-not-in-text-order")
 	}
 	https := section("http ", eB)
@@ -123,7 +181,7 @@ func HPermute() {
 		}
 	}
 	_ = https
-	if len(paths) == 3 {
+	if len(paths) == 3 && vParam("family", 0) == 0 {
 		uFirst := paths[0] == "/u"
 		vAssert(uFirst == (pos[4] < pos[5]), "c15-interactions-not-in-text-order")
 	}
